@@ -228,3 +228,117 @@ def entry_sid_shared(i: int, j: int) -> bool:
     if (c.type, c.string, dict(c.fields)) != snap or (a.type, a.string, dict(a.fields)) != snap:
         return fail("sid-state-leaks-through-cache")
     return True
+
+
+# ------------------------------------------------------------------------------------------------
+# call alphabet: every ordered pair / triple of read-only calls; the later call must answer what it
+# answers in a fresh cache state.  Where an oracle independent of any history exists it is used as well
+# (configured roots of the two path configurations).
+from spil import FindInList  # noqa: E402
+
+ROOTS = {"local": "/r", "server": "/z", None: "/r"}
+if env.CONF == "shipped":
+    ROOTS = None
+
+
+def _desc(sid):
+    return ("sid", sid.type, sid.string, tuple(sid.fields.items()))
+
+
+def _safe(f):
+    try:
+        return f()
+    except Exception as e:
+        return ("exc", type(e).__name__)
+
+
+_MULTI = "h/a/x/v1/*"          # accepted by a__f and a__g
+_MULTI_S = "h/s/q1/v1/*"       # accepted by s__f, s__c and s__o
+CALLS = [
+    ("Sid(str multi)", lambda: _desc(Sid(_MULTI))),
+    ("Sid(uri a__g)", lambda: _desc(Sid("a__g:" + _MULTI))),
+    ("Sid(Sid(uri a__g))", lambda: _desc(Sid(Sid("a__g:" + _MULTI)))),
+    ("Sid(Sid(uri s__c))", lambda: _desc(Sid(Sid("s__c:" + _MULTI_S)))),
+    ("Sid(str multi s)", lambda: _desc(Sid(_MULTI_S))),
+    ("Sid(fields)", lambda: _desc(Sid(fields={"version": "v1", "p": "h", "n": "x", "t": "a"}))),
+    ("Sid(query)", lambda: _desc(Sid(query="p=h&t=s&q=q1"))),
+    ("Sid(str?query)", lambda: _desc(Sid("h/a/x?version=v2"))),
+    ("Sid(path local)", lambda: _desc(Sid(path="/r/H/A/x/v1/x_v1.m", config="local"))),
+    ("Sid(path local, server cfg)", lambda: _desc(Sid(path="/r/H/A/x/v1/x_v1.m", config="server"))),
+    ("Sid(path server)", lambda: _desc(Sid(path="/z/H/S/q1/v1/E/q1_v1.c", config="server"))),
+    ("Sid(path server, default cfg)", lambda: _desc(Sid(path="/z/H/S/q1/v1/E/q1_v1.c"))),
+    ("path(local)", lambda: str(Sid("h/a/x/v1/m").path("local"))),
+    ("path(server)", lambda: str(Sid("h/a/x/v1/m").path("server"))),
+    ("path(config=server)", lambda: str(Sid("h/a/x/v1/m").path(config="server"))),
+    ("path()", lambda: str(Sid("h/a/x/v1/m").path())),
+    ("path(g uri, server)", lambda: str(Sid("a__g:h/a/x/v1/g").path("server"))),
+    ("unfold", lambda: sorted(s.uri for s in unfold_search("h/s,a/*"))),
+    ("unfold extrapolate", lambda: sorted(s.uri for s in unfold_search("h/s,a/*", do_extrapolate=True))),
+    ("unfold positional extrapolate", lambda: sorted(s.uri for s in unfold_search("h/s,a/*", False, True))),
+    ("unfold Sid object", lambda: sorted(s.uri for s in unfold_search(Sid("s__c:" + _MULTI_S)))),
+    ("unfold str multi s", lambda: sorted(s.uri for s in unfold_search(_MULTI_S))),
+    ("fields mutation", lambda: (Sid(_MULTI).fields.update({"p": "X"}), _desc(Sid(_MULTI)))[1]),
+    ("find in list", lambda: sorted(FindInList(["h/a/x", "h/a/y", "h/s/q1"]).find("h/a/*", as_sid=False))),
+    ("match", lambda: Sid("h/a/x").match("h/*/x")),
+]
+NCALLS = len(CALLS)
+
+
+def _fresh(j):
+    env.clear_caches()
+    return _safe(CALLS[j][1])
+
+
+EXPECTED = [_fresh(j) for j in range(NCALLS)]
+env.clear_caches()
+
+
+def _root_oracle(j, got) -> bool:
+    if ROOTS is None:
+        return True
+    name = CALLS[j][0]
+    if name in ("path(local)", "path()"):
+        return got.startswith("/r/")
+    if name in ("path(server)", "path(config=server)", "path(g uri, server)"):
+        return got.startswith("/z/")
+    if name in ("Sid(path local, server cfg)", "Sid(path server, default cfg)"):
+        return got[1] == ""       # a path of the other configuration resolves to nothing
+    if name in ("Sid(path local)", "Sid(path server)"):
+        return got[1] != ""
+    return True
+
+
+def pair(j: int) -> bool:
+    """
+    History (CALLS[VF_IDX], CALLS[j]) from a fresh cache state: the second call answers what it answers alone.
+    pre: 0 <= j < NCALLS
+    post: _
+    """
+    j = _R2[j]
+    env.clear_caches()
+    _safe(CALLS[IDX][1])
+    got = _safe(CALLS[j][1])
+    if got != EXPECTED[j]:
+        return fail("answer-depends-on-previous-call")
+    if not _root_oracle(j, got):
+        return fail("path-configuration-mixed-up")
+    return True
+
+
+def triple(j: int, k: int) -> bool:
+    """
+    History (CALLS[VF_IDX], CALLS[j], CALLS[k]).
+    pre: 0 <= j < NCALLS and 0 <= k < NCALLS
+    post: _
+    """
+    j, k = _R2[j], _R2[k]
+    env.clear_caches()
+    _safe(CALLS[IDX][1])
+    _safe(CALLS[j][1])
+    got = _safe(CALLS[k][1])
+    if got != EXPECTED[k]:
+        return fail("answer-depends-on-previous-calls")
+    return _root_oracle(k, got) or fail("path-configuration-mixed-up")
+
+
+_R2 = list(range(64))
